@@ -186,7 +186,7 @@ def run(ctx, rep):
     lv = list(E.leaves_of(tree))
     rep.ob('R14.3', 'single-outcome', len(lv) == 1, f'{len(lv)} outcomes of partition')
     if eng.incomplete:
-        rep.ob('engine', 'incomplete', False, str(eng.incomplete[:2]))
+        rep.ob('engine', 'incomplete', None, str(eng.incomplete[:2]))
     if len(lv) == 1:
         ret = lv[0].ret
         # count < 2 -> the range itself
@@ -199,58 +199,81 @@ def run(ctx, rep):
     START, END = ('app', 'range_start', (SELF0,)), ('app', 'range_end', (SELF0,))
     days = ('app', nd, (('param', 'self'),))
     rep.floor('pushed blocks', len(pushes), 1)
+    # a second run unrolls the loop three times without abstraction: the starts of consecutive blocks are then explicit
+    eng2 = ctx.engine(loop_bound=4)
+    eng2.loop_abstract = False
+    eng2.opaque.add(nd)
+    pushes2 = []
+
+    def hook_push2(eng, st, fr, t, ptr, v):
+        pushes2.append((eng.purify(st, v), dict(st.asm)))
+    eng2.hooks['vec_push'] = hook_push2
+    eng2.call_entry(part, eng2.sym_args(part, ['self', 'count']))
+    rep.floor('pushed blocks (unrolled run)', len(pushes2), 3)
+
+    def date_plus(t):
+        """(date, n) if t is `date + Duration::days(n)`"""
+        if t[0] == 'app' and t[1].endswith('ops::Add<chrono::TimeDelta>>::add') and len(t[2]) == 2:
+            dd = t[2][1]
+            if dd[0] == 'app' and dd[1].endswith('TimeDelta::days') and len(dd[2]) == 1:
+                return t[2][0], dd[2][0]
+        return None
+
+    def min_args(t):
+        """{a, b} if t is min(a, b) written with Ord::min or as a comparison that selects the smaller"""
+        if t[0] == 'app' and t[1].endswith('::min') and len(t[2]) == 2:
+            return t[2]
+        if t[0] == 'ite' and t[1][0] == 'app' and t[1][1] in ('cmp_lt', 'cmp_le', 'cmp_gt', 'cmp_ge') and len(t[1][2]) == 2:
+            x, y = t[1][2]
+            small, large = (x, y) if t[1][1] in ('cmp_lt', 'cmp_le') else (y, x)
+            if t[2] == small and t[3] == large:
+                return (small, large)
+        return None
+
     Bs = set()
-    n_ok = 0
-    for (v, asm) in pushes:
+    starts = set()
+    blocks = []
+    for (v, asm) in pushes + pushes2:
         if not (v[0] == 'enum' and v[4] and v[4][0][0] == 'rangeincl'):
             rep.ob('R14.3', 'block-shape', False, f'pushed value is not DateRange(s..=e): {show(v)[:100]}')
             continue
-        s0, e0 = v[4][0][1], v[4][0][2]
+        blk = (v[4][0][1], v[4][0][2])
+        if blk not in blocks:
+            blocks.append(blk)
+            starts.add(blk[0])
+    steps = []
+    n_ok = 0
+    for (s0, e0) in blocks:
+        # the start is the range start, the abstract running start, or the previous start + B
         oks = s0 == START or (s0[0] == 'loopval' and s0[2] == START)
+        if not oks:
+            dp = date_plus(s0)
+            if dp is not None and dp[0] in starts:
+                steps.append(dp[1])
+                oks = True
         rep.ob('R14.3', 'block-start', oks, 'block starts at the running start date' if oks else f'block starts at {show(s0)[:80]}')
-        # e0 = if s + days(B-1) > end { end } else { s + days(B-1) }
         oke = False
         detail = f'block end is {show(e0, maxd=5)[:160]}'
-        if e0[0] == 'ite' and e0[1][0] == 'app' and e0[1][1] == 'cmp_gt' and e0[1][2][1] == END and e0[2] == END and e0[3] == e0[1][2][0]:
-            cand = e0[3]
-            if cand[0] == 'app' and cand[1].endswith('ops::Add<chrono::TimeDelta>>::add') and cand[2][0] == s0:
-                dd = cand[2][1]
-                if dd[0] == 'app' and dd[1].endswith('TimeDelta::days') and dd[2][0][0] == 'bin' and dd[2][0][1] == 'Sub' and \
-                        const_f64(dd[2][0][3]) == 1.0:
-                    Bs.add(dd[2][0][2])
-                    oke = True
-                    detail = 'block end is min(s + B - 1, end)'
+        ma = min_args(e0)
+        if ma is not None and END in ma:
+            cand = ma[0] if ma[1] == END else ma[1]
+            dp = date_plus(cand)
+            if dp is not None and dp[0] == s0 and dp[1][0] == 'bin' and dp[1][1] == 'Sub' and const_f64(dp[1][3]) == 1.0:
+                Bs.add(dp[1][2])
+                oke = True
+                detail = 'block end is min(s + B - 1, end)'
         rep.ob('R14.3', 'block-end', oke, detail)
         if oks and oke:
             n_ok += 1
-    # next start = s + days(B) with the same B; loop guard s <= end
-    b = lib.bodies[part]
-    nexts = []
-    guards = []
-    for st in []:
-        pass
-    # read them off the merged return term / loop structure through a second run that records assignments of the date local
-    eng2 = ctx.engine()
-    eng2.opaque.add(nd)
-    adds = []
-
-    def hook_asg(eng, st, fr, s, root, path, v):
-        if fr.body.path == part and isinstance(v, tuple) and v and v[0] == 'app' and v[1].endswith('ops::Add<chrono::TimeDelta>>::add') \
-                and not path:
-            adds.append(v)
-    eng2.hooks['assign'] = hook_asg
-    eng2.call_entry(part, eng2.sym_args(part, ['self', 'count']))
-    step_ok = False
-    for v in adds:
-        dd = v[2][1]
-        if dd[0] == 'app' and dd[1].endswith('TimeDelta::days') and dd[2][0] in Bs and (v[2][0] == START or v[2][0][0] == 'loopval'):
-            step_ok = True
-    steps = [v for v in adds if v[2][1][0] == 'app' and v[2][1][1].endswith('TimeDelta::days') and
-             not (v[2][1][2][0][0] == 'bin' and v[2][1][2][0][1] == 'Sub')]
-    bad_steps = [v for v in steps if v[2][1][2][0] not in Bs]
-    rep.ob('R14.3', 'next-start', step_ok and not bad_steps,
-           'next start is s + B for the same B' if step_ok and not bad_steps else
-           f'next start advances by {[show(v[2][1], maxd=4)[:80] for v in (bad_steps or adds)][:2]} (block size {[show(x, maxd=3)[:60] for x in Bs]})')
+    rep.floor('blocks of the form [s, min(s+B-1, end)]', n_ok, 3)
+    # next start = s + days(B) with the same B
+    bad_steps = [x for x in steps if x not in Bs]
+    step_ok = bool(steps) and not bad_steps
+    rep.ob('R14.3', 'next-start', step_ok,
+           'next start is s + B for the same B' if step_ok else
+           f'next start advances by {[show(x, maxd=4)[:80] for x in (bad_steps or steps)][:2]} (block size {[show(x, maxd=3)[:60] for x in Bs]})')
+    rep.floor('observed steps between consecutive blocks', len(steps), 2)
+    rep.ob('R14.3', 'one-block-size', len(Bs) <= 1, f'{len(Bs)} different block sizes are used')
     for B in Bs:
         # B = ceil(days / count) as i64
         inner = B
